@@ -37,10 +37,13 @@ BOUNDS = {
 EXHAUSTIVE = {"quick": True, "thorough": True}
 SAMPLE_EVERY = {"quick": 9000, "thorough": 300000}
 
-BLOCKS = [("sscope", "A"), ("updated", "A"), ("ascope", "A"), ("updated", "R")]
+BLOCKS = [("sscope", "A"), ("updated", "A"), ("ascope", "A"), ("updated", "R"), ("prepared", "R")]
+# block 4 = a sync scope object supplying [R] that the ROOT task built at its very start (outside
+# everything); only the first child may enter it (once): a scope prepared in one place / task and
+# entered in another must still sit on top of the state of the task that enters it
 
 
-def scripts(L: int):
+def scripts(L: int, with_prepared: bool = False):
     """well-nested op sequences of length <= L; op = block index (enter) or -1 (exit)"""
     out = [[]]
 
@@ -48,6 +51,8 @@ def scripts(L: int):
         if len(prefix) == L:
             return
         for b in range(len(BLOCKS)):
+            if b == 4 and (not with_prepared or 4 in prefix):
+                continue
             s = [*prefix, b]
             out.append(s)
             go(s, depth + 1)
@@ -63,16 +68,18 @@ def scripts(L: int):
 def programs(tier: str):
     b = BOUNDS[tier]
     s2 = scripts(b["two_tasks_L"])
+    s2p = scripts(b["two_tasks_L"], with_prepared=True)
     for root in s2:
-        for child in s2:
+        for child in s2p:
             if not root and not child:
                 continue
             for pos in range(len(root) + 1):
                 for how in ("spawn", "create"):
                     yield {"scripts": [root, child], "starts": [[0, pos, how]]}
     s3 = scripts(b["three_tasks_L"])
+    s3p = scripts(b["three_tasks_L"], with_prepared=True)
     for root in s3:
-        for c1 in s3:
+        for c1 in s3p:
             for c2 in s3:
                 for starter2 in (0, 1):
                     n = len(root) if starter2 == 0 else len(c1)
@@ -101,6 +108,7 @@ def execute(program, ch: Chooser) -> Result:  # noqa: C901, PLR0915
     alive_overlap = [False]
     interesting = [False]
     steps = [0]
+    prepared: dict = {}
 
     def probe(tid: int, env: list[dict], in_scope: bool, soft: bool, where: str) -> None:
         steps[0] += 1
@@ -145,6 +153,12 @@ def execute(program, ch: Chooser) -> Result:  # noqa: C901, PLR0915
                         t = w.loop.create_task(coro)
                     tasks[child_idx] = t
 
+        if tid == 0:
+            pst = make_states(["R"], "prepared")
+            keep.extend(pst)
+            supplied[id(pst[0])] = pst[0].tag
+            prepared["states"] = pst
+            prepared["cm"] = ctx.scope("prepared", *pst)
         probe(tid, env, in_scope, soft, "start")
         for i, op in enumerate(script):
             maybe_start(i)
@@ -158,7 +172,11 @@ def execute(program, ch: Chooser) -> Result:  # noqa: C901, PLR0915
                 states = make_states([sup], label)
                 keep.extend(states)
                 supplied[id(states[0])] = states[0].tag
-                if kind == "sscope":
+                if kind == "prepared":
+                    cm, states = prepared["cm"], prepared["states"]
+                    cm.__enter__()
+                    kind = "sscope"
+                elif kind == "sscope":
                     cm = ctx.scope(label, *states)
                     cm.__enter__()
                 elif kind == "ascope":
